@@ -953,13 +953,14 @@ impl Parsed {
             guessed_offset = tz.offset_from_utc_datetime(&dt).fix().local_minus_utc();
         }
 
-        // checks if the given `DateTime` has a consistent `Offset` with given `self.offset`.
+        // checks if the given `DateTime` has a consistent `Offset` with given `self.offset`,
+        // and with `self.timestamp`: `guessed_offset` is the offset in effect at that instant.
         let check_offset = |dt: &DateTime<Tz>| {
-            if let Some(offset) = self.offset {
-                dt.offset().fix().local_minus_utc() == offset
-            } else {
-                true
+            let dt_offset = dt.offset().fix().local_minus_utc();
+            if self.timestamp.is_some() && dt_offset != guessed_offset {
+                return false;
             }
+            if let Some(offset) = self.offset { dt_offset == offset } else { true }
         };
 
         // `guessed_offset` should be correct when `self.timestamp` is given.
